@@ -5,12 +5,15 @@
 package main
 
 import (
+	"crypto/ecdsa"
 	"encoding/json"
 	"fmt"
 	"net/http"
+	"net/http/httptest"
 	"net/url"
 	"os"
 	"path"
+	"slices"
 	"sort"
 	"strings"
 	"time"
@@ -221,6 +224,22 @@ type hintSpec struct {
 	kind     string // none valid expired future badsig foreign garbage tampered expbadsig
 	sub, azp string
 	iss      string // issuer the token is signed for ("" = the issuer of the request it is sent with)
+	key      string // provider key that signs it: "k1" / "k2" ("" = k1)
+}
+
+// the provider's signing keys; which of them the storage publishes varies per request
+func provKey(name string) *refstore.SigningKey {
+	if name == "" {
+		name = "k1"
+	}
+	return &refstore.SigningKey{KID: name, Alg: jose.ES256, Priv: opfix.ECKey("op-" + name)}
+}
+
+func (h hintSpec) keyName() string {
+	if h.key == "" {
+		return "k1"
+	}
+	return h.key
 }
 
 // term: what the driver knows about the token (C18_Session.tok)
@@ -233,11 +252,11 @@ func (h hintSpec) term(current string) string {
 	case "none":
 		return "TNone"
 	case "valid":
-		return emit.Ctor("TSigned", emit.Str(iss), "false", emit.Str(h.sub), emit.Str(h.azp))
+		return emit.Ctor("TSigned", emit.Str(h.keyName()), emit.Str(iss), "false", emit.Str(h.sub), emit.Str(h.azp))
 	case "expired", "future":
-		return emit.Ctor("TSigned", emit.Str(iss), "true", emit.Str(h.sub), emit.Str(h.azp))
+		return emit.Ctor("TSigned", emit.Str(h.keyName()), emit.Str(iss), "true", emit.Str(h.sub), emit.Str(h.azp))
 	case "foreign":
-		return emit.Ctor("TSigned", emit.Str("https://evil.example"), "false", emit.Str(h.sub), emit.Str(h.azp))
+		return emit.Ctor("TSigned", emit.Str(h.keyName()), emit.Str("https://evil.example"), "false", emit.Str(h.sub), emit.Str(h.azp))
 	default:
 		return "TBad"
 	}
@@ -260,7 +279,8 @@ func sign(key any, kid string, claims map[string]any) string {
 	return s
 }
 
-func (h hintSpec) token(sk *refstore.SigningKey, current string) string {
+func (h hintSpec) token(current string) string {
+	sk := provKey(h.key)
 	iss := h.iss
 	if iss == "" {
 		iss = current
@@ -308,6 +328,8 @@ type esCase struct {
 	clients    []*refstore.Client
 	reqs       []esReq
 	tags       []string
+	tsMode     string // "" storage without the optional CanTerminateSessionFromRequest; "echo" | "fixed" | "error"
+	tsFixed    string
 }
 
 type esReq struct {
@@ -317,7 +339,8 @@ type esReq struct {
 	clientID  string
 	uri       string
 	state     string
-	fault     int // 0 none, 1 GetClientByClientID, 2 TerminateSession
+	fault     int      // 0 none, 1 GetClientByClientID, 2 TerminateSession
+	published []string // key ids the storage publishes while this request is served (nil = k1)
 }
 
 func routerName(r opfix.Router) string {
@@ -344,20 +367,24 @@ func (c esCase) issuer(q esReq) string {
 func verifiable(kind string) bool { return kind == "valid" || kind == "expired" || kind == "future" }
 
 func run(w *emit.Writer, c esCase) {
-	store := refstore.New(opfix.DefaultSigning())
+	store := refstore.New(provKey("k1"))
 	for _, cl := range c.clients {
 		store.Clients[cl.ID] = cl
 	}
-	var f *opfix.Fixture
-	var err error
+	issuer := op.StaticIssuer(opfix.Issuer)
 	switch c.issuerMode {
 	case 1:
-		f, err = opfix.NewWithIssuer(store, opfix.Options{DefaultLogout: c.defaultU}, op.IssuerFromHost(""))
+		issuer = op.IssuerFromHost("")
 	case 2:
-		f, err = opfix.NewWithIssuer(store, opfix.Options{DefaultLogout: c.defaultU}, op.IssuerFromForwardedOrHost(""))
-	default:
-		f, err = opfix.New(store, opfix.Options{DefaultLogout: c.defaultU})
+		issuer = op.IssuerFromForwardedOrHost("")
 	}
+	var tsfr *refstore.TSFR
+	var wrap func(op.Storage) op.Storage
+	if c.tsMode != "" {
+		tsfr = &refstore.TSFR{Mode: c.tsMode, Fixed: c.tsFixed}
+		wrap = func(st op.Storage) op.Storage { tsfr.Storage = st; return tsfr }
+	}
+	f, err := opfix.NewWithIssuerStorage(store, opfix.Options{DefaultLogout: c.defaultU}, issuer, wrap)
 	if err != nil {
 		fmt.Fprintln(os.Stderr, "fixture:", err)
 		os.Exit(2)
@@ -373,7 +400,18 @@ func run(w *emit.Writer, c esCase) {
 	for _, rq := range c.reqs {
 		cur := c.issuer(rq)
 		q := url.Values{}
-		if tok := rq.hint.token(store.Signing, cur); tok != "" {
+		// key rotation: what the storage publishes while THIS request is served
+		pub := rq.published
+		if len(pub) == 0 {
+			pub = []string{"k1"}
+		}
+		store.Signing = provKey(pub[0])
+		store.ExtraPub = nil
+		for _, k := range pub[1:] {
+			sk := provKey(k)
+			store.ExtraPub = append(store.ExtraPub, &refstore.PublicKey{KID: sk.KID, Alg: sk.Alg, UseStr: "sig", Pub: &sk.Priv.(*ecdsa.PrivateKey).PublicKey})
+		}
+		if tok := rq.hint.token(cur); tok != "" {
 			q.Set("id_token_hint", tok)
 		}
 		if rq.clientID != "" {
@@ -390,9 +428,9 @@ func run(w *emit.Writer, c esCase) {
 		if rq.fault == 1 {
 			store.FaultMethod = "GetClientByClientID"
 		}
-		if rq.fault == 2 { // the journal name carries the arguments: aim at the call a correct provider makes
+		if rq.fault == 2 && tsfr == nil { // the journal name carries the arguments: aim at the call a correct provider makes
 			eu, ec := "", ""
-			accepted := verifiable(rq.hint.kind) && (rq.hint.iss == "" || rq.hint.iss == cur)
+			accepted := verifiable(rq.hint.kind) && (rq.hint.iss == "" || rq.hint.iss == cur) && slices.Contains(pub, rq.hint.keyName())
 			if accepted {
 				eu, ec = rq.hint.sub, rq.hint.azp
 			} else if rq.hint.kind == "none" {
@@ -412,6 +450,12 @@ func run(w *emit.Writer, c esCase) {
 				term = emit.Some(termPair)
 			}
 		}
+		if tsfr != nil {
+			for _, call := range tsfr.TakeCalls() {
+				termPair = emit.Pair(emit.Str(call.UserID), emit.Str(call.ClientID))
+				term = emit.Some(termPair)
+			}
+		}
 		var obs string
 		switch {
 		case resp.Panic != "":
@@ -424,12 +468,12 @@ func run(w *emit.Writer, c esCase) {
 			obs = "EOther"
 		}
 		outs = append(outs, obs)
-		reqTerms = append(reqTerms, emit.Ctor("Build_ereq", routerName(rq.router), emit.Str(cur), rq.hint.term(cur), emit.Str(rq.clientID),
+		reqTerms = append(reqTerms, emit.Ctor("Build_ereq", routerName(rq.router), emit.Str(cur), emit.StrList(pub), rq.hint.term(cur), emit.Str(rq.clientID),
 			emit.Str(rq.uri), emit.Str(rq.state), []string{"EF_None", "EF_GetClient", "EF_Terminate"}[rq.fault]))
 		parse = append(parse, rq.uri)
 		uris = append(uris, rq.uri)
 		human = append(human, map[string]any{"router": rq.router.String(), "host": rq.host, "forwarded": rq.fwd, "issuer": cur,
-			"hint_kind": rq.hint.kind, "hint_sub": rq.hint.sub, "hint_azp": rq.hint.azp, "hint_iss": rq.hint.iss, "client_id": rq.clientID,
+			"hint_kind": rq.hint.kind, "hint_sub": rq.hint.sub, "hint_azp": rq.hint.azp, "hint_iss": rq.hint.iss, "hint_key": rq.hint.keyName(), "published": pub, "client_id": rq.clientID,
 			"post_logout_redirect_uri": rq.uri, "state": rq.state, "fault": rq.fault, "status": resp.Status, "location": resp.Header.Get("Location"),
 			"body": resp.Body, "journal": store.JournalCopy()})
 	}
@@ -437,9 +481,20 @@ func run(w *emit.Writer, c esCase) {
 	for i, x := range c.clients {
 		cl[i] = clientTerm(x)
 	}
-	in := emit.Ctor("IEnd", emit.Str(defaultU), emit.List(cl), tables(c.clients, uris, parse), emit.List(reqTerms))
+	tsTerm := "TS_Absent"
+	switch c.tsMode {
+	case "echo":
+		tsTerm = "TS_Echo"
+	case "error":
+		tsTerm = "TS_Err"
+	case "fixed": // what http.Redirect makes of the storage's answer on this endpoint
+		rec := httptest.NewRecorder()
+		http.Redirect(rec, httptest.NewRequest(http.MethodGet, "https://op.example.com/end_session", nil), c.tsFixed, http.StatusFound)
+		tsTerm = emit.Ctor("TS_Fixed", emit.Str(rec.Header().Get("Location")))
+	}
+	in := emit.Ctor("IEnd", emit.Str(defaultU), tsTerm, emit.List(cl), tables(c.clients, uris, parse), emit.List(reqTerms))
 	w.Add(emit.Case{Input: in, Observed: emit.Ctor("OEnd", emit.List(outs)), Tags: c.tags,
-		Human: map[string]any{"issuer_mode": c.issuerMode, "default": defaultU, "requests": human, "clients": clientsHuman(c.clients)}})
+		Human: map[string]any{"issuer_mode": c.issuerMode, "tsfr": c.tsMode, "tsfr_fixed": c.tsFixed, "default": defaultU, "requests": human, "clients": clientsHuman(c.clients)}})
 }
 
 func clientsHuman(cs []*refstore.Client) []map[string]any {
@@ -466,7 +521,14 @@ func genReq(r drv.Rand, c *esCase, tags map[string]bool) esReq {
 	azp := drv.Pick(r, []string{"c0", "c0", "c0", "c1", "", "ghost"})
 	q.hint = hintSpec{kind: hk, sub: drv.Pick(r, []string{"alice", "bob", "user 1", "u:1"})}
 	issKind := "current"
+	q.published = drv.Pick(r, [][]string{{"k1"}, {"k1"}, {"k2"}, {"k1", "k2"}, {"k2", "k1"}})
+	keyKind := "none"
 	if hk != "none" {
+		q.hint.key = drv.Pick(r, []string{"k1", "k1", "k2"})
+		keyKind = "withdrawn"
+		if slices.Contains(q.published, q.hint.key) {
+			keyKind = "published"
+		}
 		q.hint.azp = azp
 		if r.Chance(1, 4) { // a hint of another issuer of the same provider (same key)
 			q.hint.iss = drv.Pick(r, []string{"https://a.example.com", "https://b.example.com", opfix.Issuer})
@@ -516,8 +578,11 @@ func genReq(r drv.Rand, c *esCase, tags map[string]bool) esReq {
 	q.state, stKind = genState(r)
 	if r.Chance(1, 12) {
 		q.fault = 1 + r.IntN(2)
+		if q.fault == 2 && c.tsMode != "" { // TerminateSession is not called then
+			q.fault = 1
+		}
 	}
-	for _, t := range []string{"router=" + q.router.String(), "hint=" + hk, "hintiss=" + issKind, "client_id=" + cidKind, "uri=" + uriKind,
+	for _, t := range []string{"hintkey=" + keyKind, "router=" + q.router.String(), "hint=" + hk, "hintiss=" + issKind, "client_id=" + cidKind, "uri=" + uriKind,
 		"state=" + stKind, fmt.Sprintf("fault=%d", q.fault), fmt.Sprintf("globs=%v", owner.UseGlobs), fmt.Sprintf("forwarded=%v", q.fwd != "")} {
 		tags[t] = true
 	}
@@ -528,12 +593,21 @@ func gen(r drv.Rand, w *emit.Writer) {
 	c := esCase{issuerMode: drv.Pick(r, []int{0, 1, 1, 2, 2})}
 	c.defaultU = drv.Pick(r, []string{"", "", "https://op.example.com/bye?x=1", "https://op.example.com/done#top", "https://op.example.com/%zz"})
 	c.clients = []*refstore.Client{genClient(r, "c0"), genClient(r, "c1")}
+	// the storage may implement the optional CanTerminateSessionFromRequest
+	switch r.IntN(8) {
+	case 0, 1:
+		c.tsMode = "echo"
+	case 2:
+		c.tsMode, c.tsFixed = "fixed", drv.Pick(r, []string{"", "https://consent.example/logout?x=1", "/ui/bye"})
+	case 3:
+		c.tsMode = "error"
+	}
 	n := drv.Pick(r, []int{1, 1, 2, 3, 4})
 	tags := map[string]bool{}
 	for i := 0; i < n; i++ {
 		c.reqs = append(c.reqs, genReq(r, &c, tags))
 	}
-	c.tags = []string{fmt.Sprintf("issuer_mode=%d", c.issuerMode), fmt.Sprintf("requests=%d", n)}
+	c.tags = []string{fmt.Sprintf("issuer_mode=%d", c.issuerMode), fmt.Sprintf("requests=%d", n), "tsfr=" + c.tsMode}
 	var ts []string
 	for t := range tags {
 		ts = append(ts, t)
@@ -584,6 +658,27 @@ func directed(w *emit.Writer) {
 				{router: router, host: "a.example.com", hint: hA}},
 				tags: []string{"directed=hosts", "router=" + router.String(), fmt.Sprintf("issuer_mode=%d", mode)}})
 		}
+		// signing-key rotation on one provider: k1 used, withdrawn, presented again, republished
+		h1 := hintSpec{kind: "valid", sub: "alice", azp: "c0", key: "k1"}
+		h2 := hintSpec{kind: "valid", sub: "alice", azp: "c0", key: "k2"}
+		run(w, esCase{clients: cl, reqs: []esReq{
+			{router: router, host: "op.example.com", hint: h1, uri: "https://app.example.com/bye", published: []string{"k1"}},
+			{router: router, host: "op.example.com", hint: h2, uri: "https://app.example.com/bye", published: []string{"k1"}},
+			{router: router, host: "op.example.com", hint: h1, uri: "https://app.example.com/bye", published: []string{"k1", "k2"}},
+			{router: router, host: "op.example.com", hint: h1, uri: "https://app.example.com/bye", published: []string{"k2"}},
+			{router: router, host: "op.example.com", hint: h2, uri: "https://app.example.com/bye", state: "s", published: []string{"k2"}},
+			{router: router, host: "op.example.com", hint: h1, published: []string{"k2", "k1"}}},
+			tags: []string{"directed=rotation", "router=" + router.String()}})
+		// storages with the optional CanTerminateSessionFromRequest; requests that identify no client
+		for _, ts := range [][2]string{{"echo", ""}, {"fixed", ""}, {"fixed", "https://consent.example/logout"}, {"error", ""}} {
+			run(w, esCase{clients: cl, tsMode: ts[0], tsFixed: ts[1], reqs: []esReq{
+				{router: router, host: "op.example.com", hint: hintSpec{kind: "none"}, uri: "https://evil.example/bye"},
+				{router: router, host: "op.example.com", hint: hintSpec{kind: "none"}, uri: "https://evil.example/bye", state: "s t"},
+				{router: router, host: "op.example.com", hint: hintSpec{kind: "none"}, clientID: "c0", uri: "https://app.example.com/bye", state: "s"},
+				{router: router, host: "op.example.com", hint: h1, uri: "https://evil.example/bye"},
+				{router: router, host: "op.example.com", hint: h1, uri: "https://app.example.com/out/x"}},
+				tags: []string{"directed=tsfr", "tsfr=" + ts[0], "router=" + router.String()}})
+		}
 	}
 }
 
@@ -601,7 +696,7 @@ func main() {
 		gen(r, w)
 	}
 	err := w.Close(emit.Meta{Property: "C18", Tier: cfg.Tier, Seed: cfg.Seed,
-		Rule: "1-4 GET /end_session requests in sequence on ONE provider instance (static issuer, op.IssuerFromHost or op.IssuerFromForwardedOrHost; Host / Forwarded header vary per request), each on a random router: hint kind (absent, valid, expired, iat in the future, wrong key, foreign issuer, not a JWT, payload swapped, expired+wrong key; really signed ES256; 1/4 signed for another issuer of the same provider) x azp (client, other client, none, unknown) x client_id (absent, same, contradicting, unknown) x post_logout_redirect_uri (absent, registered, registered for the other client, glob instance, mutated: suffix/prefix/userinfo/host case/foreign/unparseable/scheme) x state (absent, plain, special characters, random bytes) x two random registrations (0-3 URIs, optional path.Match globs incl. malformed) x default logout URI x storage fault; plus a directed grid and directed two-host sequences. non-trivial = some request not rejected because of its hint; distinct = distinct Coq input terms",
+		Rule: "1-4 GET /end_session requests in sequence on ONE provider instance whose storage publishes a per-request subset of two signing keys (rotation / withdrawal between requests) and may implement the optional CanTerminateSessionFromRequest (echo / own URI incl. empty / error) (static issuer, op.IssuerFromHost or op.IssuerFromForwardedOrHost; Host / Forwarded header vary per request), each on a random router: hint kind (absent, valid, expired, iat in the future, wrong key, foreign issuer, not a JWT, payload swapped, expired+wrong key; really signed ES256; 1/4 signed for another issuer of the same provider) x azp (client, other client, none, unknown) x client_id (absent, same, contradicting, unknown) x post_logout_redirect_uri (absent, registered, registered for the other client, glob instance, mutated: suffix/prefix/userinfo/host case/foreign/unparseable/scheme) x state (absent, plain, special characters, random bytes) x two random registrations (0-3 URIs, optional path.Match globs incl. malformed) x default logout URI x storage fault; plus a directed grid and directed two-host sequences. non-trivial = some request not rejected because of its hint; distinct = distinct Coq input terms",
 	})
 	if err != nil {
 		fmt.Fprintln(os.Stderr, err)
